@@ -403,6 +403,22 @@ def find_loops(body: str):
         i = mo.end()
         depth = 0
         n = len(m)
+        in_off = None
+        if kw == 'for':
+            # skip the pattern (which may contain braces: `for Foo { a, .. } in xs`) up to the `in` keyword
+            d2 = 0
+            while i < n:
+                c = m[i]
+                if c in '([{':
+                    d2 += 1
+                elif c in ')]}':
+                    d2 -= 1
+                elif d2 == 0 and m.startswith('in', i) and not (m[i - 1].isalnum() or m[i - 1] == '_') \
+                        and i + 2 < n and not (m[i + 2].isalnum() or m[i + 2] == '_'):
+                    i += 2
+                    in_off = i
+                    break
+                i += 1
         while i < n:
             c = m[i]
             if c in '([':
@@ -417,7 +433,7 @@ def find_loops(body: str):
             i += 1
         if i is None or i < 0 or i >= n:
             continue
-        res.append((mo.start(), i))
+        res.append((mo.start(), i, in_off))
     return res
 
 
@@ -611,6 +627,9 @@ def _emit_fn(g, meta, tmpl, rel, src, m, ctx, name, kv, subs):
         if sig2 != sig:
             rwlog.append(dict(rule='R8', what='pub(..) -> pub', applied=1))
         sig = sig2
+    if kv.get('vis') == 'pub' and not re.match(r'\s*pub\b', sig):
+        sig = 'pub ' + sig.lstrip()
+        rwlog.append(dict(rule='R8', what='private fn made pub inside the unit', applied=1))
     fname = newname or name
     qual = f'{rel}::{ctx or ""}::{name}'
     canary = kv.get('canary') == '1'
@@ -619,6 +638,7 @@ def _emit_fn(g, meta, tmpl, rel, src, m, ctx, name, kv, subs):
     g.emit(sig.rstrip(), 'src', rel, line0, fn=fname)
     # spec
     loops_spec = {}
+    loop_iter = {}
     hints = []
     for kind, arg, content, lno in subs:
         if kind == 'spec':
@@ -631,7 +651,11 @@ def _emit_fn(g, meta, tmpl, rel, src, m, ctx, name, kv, subs):
                     meta['obligations'].append(dict(name=ob, where=f'{os.path.basename(tmpl)}:{l}', fn=fname, canary=canary))
                 g.emit(t, 'tmpl', tmpl, l, fn=fname, ob=ob)
         elif kind == 'loop':
-            loops_spec[int(arg.split()[0])] = content
+            la = arg.split()
+            loops_spec[int(la[0])] = content
+            for extra in la[1:]:
+                if extra.startswith('iter='):
+                    loop_iter[int(la[0])] = extra[5:]
         elif kind == 'at':
             if arg.strip() in ('start', 'end'):
                 hints.append((arg.strip(), '', 0, content, lno))
@@ -654,6 +678,11 @@ def _emit_fn(g, meta, tmpl, rel, src, m, ctx, name, kv, subs):
         if ordn >= len(loops):
             raise ExtractError(f'{name}: loop #{ordn} not found ({len(loops)} loops) — anchor lost')
         inserts.append((loops[ordn][1], content))
+        if ordn in loop_iter:
+            if loops[ordn][2] is None:
+                raise ExtractError(f'{name}: loop #{ordn} is not a for loop (iter= given)')
+            # ghost name for the for-loop iterator (Verus syntax `for x in NAME: expr`): annotation only
+            inserts.append((loops[ordn][2], [(0, ' ' + loop_iter[ordn] + ':')], 'inline'))
     for (where, atext, kk, content, lno) in hints:
         if where == 'start':
             inserts.append((0, content))
@@ -673,11 +702,18 @@ def _emit_fn(g, meta, tmpl, rel, src, m, ctx, name, kv, subs):
     g.emit('{', 'tmpl', tmpl, 0, fn=fname)
     pos = 0
     cur_line = body_line0
-    for off, content in inserts:
+    cont = False
+    for ins in inserts:
+        off, content = ins[0], ins[1]
         seg = body[pos:off]
-        g.append_to_last('')
-        _emit_src_seg(g, seg, rel, cur_line, fname)
+        _emit_src_seg(g, seg, rel, cur_line, fname, cont)
+        cont = False
         cur_line += seg.count('\n')
+        if len(ins) > 2 and ins[2] == 'inline':
+            g.lines[-1] += content[0][1]
+            pos = off
+            cont = True
+            continue
         for (l, t) in content:
             ob = None
             mo2 = OB_TAG.search(t)
@@ -688,7 +724,7 @@ def _emit_fn(g, meta, tmpl, rel, src, m, ctx, name, kv, subs):
             g.emit(t, 'tmpl', tmpl, l, fn=fname, ob=ob)
         pos = off
     seg = body[pos:]
-    _emit_src_seg(g, seg, rel, cur_line, fname)
+    _emit_src_seg(g, seg, rel, cur_line, fname, cont)
     g.emit('}', 'tmpl', tmpl, 0, fn=fname)
     rec = dict(fn=fname, source=f'{rel}:{line0}-{line_of(src, bc)}', qual=qual, sha256=sha, rewrites=rwlog,
                loops=len(loops), canary=canary)
@@ -701,9 +737,12 @@ def _ghost_only(t):
     return True
 
 
-def _emit_src_seg(g, seg, rel, line0, fname):
+def _emit_src_seg(g, seg, rel, line0, fname, cont=False):
     parts = seg.split('\n')
     for k, p in enumerate(parts):
+        if k == 0 and cont:
+            g.lines[-1] += p
+            continue
         g.lines.append(p)
         g.map.append(dict(kind='src', file=rel, line=line0 + k, fn=fname, ob=None))
 
